@@ -569,7 +569,7 @@ func (pr *progRun) doDial(i int, d *DDial) (evs []Ev, nops int, kinds []string, 
 	if hang {
 		return []Ev{{"e": "HANG", "i": i}}, nops, kinds, true
 	}
-	evs = append(evs, Ev{"e": "Dial", "i": i + 1, "d": d.Abs, "hooks": hooks, "ops": ops, "closed": closed, "peer": layers, "res": res})
+	evs = append(evs, Ev{"e": "Dial", "i": i + 1, "d": d.Abs, "short": stalling, "hooks": hooks, "ops": ops, "closed": closed, "peer": layers, "res": res})
 	if delta > 8*uint64(fed)+(6<<20) {
 		evs = append(evs, Ev{"e": "ALLOC", "delta": delta, "fed": fed})
 	}
